@@ -94,11 +94,13 @@ def run(ctx):
             big = {"MaxN": 16, "generated": r2.generated, "distinct": r2.distinct, "wall_s": round(r2.wall, 1)}
             ctx.log("TLC MaxN=16 (no edge export): %d generated, %d distinct, %.1fs" % (r2.generated, r2.distinct, r2.wall))
     # negative control: with the switches on, the code-as-found verifier is NOT sound in the spec
-    rn = mk.model_check(ctx, "Merkle_C26_neg.cfg",
-                        mk.cfg_text("SpecA", 3, 0, False, 1, ["RootOK"], ["ConsSoundAsCoded"], edges=False), [], expect_violation=True)
-    neg = rn.status == "violation" and rn.violated == "ConsSoundAsCoded"
-    if not neg:
-        ctx.notes.append("negative control: ConsSoundAsCoded was not violated (status %s) - the deviation switches have no effect" % rn.status)
+    neg = None
+    if ctx.thorough:
+        rn = mk.model_check(ctx, "Merkle_C26_neg.cfg",
+                            mk.cfg_text("SpecA", 3, 0, False, 1, ["RootOK"], ["ConsSoundAsCoded"], edges=False), [], expect_violation=True)
+        neg = rn.status == "violation" and rn.violated == "ConsSoundAsCoded"
+        if not neg:
+            ctx.notes.append("negative control: ConsSoundAsCoded was not violated (status %s) - the deviation switches have no effect" % rn.status)
     paths, nv, muts, counts = [], {}, {}, {}
     nsteps = 0
     if mc and binary:
